@@ -103,4 +103,50 @@ impl DBM {
             forall|u: UserId| #[trigger] old(self).users.contains_key(u) ==> final(self).users[u] ==
                 (if updated_users@.contains_key(u) { UserInfo { available_slots: updated_users@[u].available_slots, ..old(self).users[u] } } else { old(self).users[u] }),
     { unimplemented!() }
+    // INSERT INTO appointments   [PRIMARY KEY UUID, FOREIGN KEY user_id]
+    #[verifier::external_body]
+    pub fn store_appointment(&mut self, uuid: UUID, appointment: &ExtendedAppointment) -> (r: Result<(), DbError>)
+        ensures
+            final(self).users == old(self).users, final(self).trackers == old(self).trackers,
+            match r {
+                Ok(_) => !old(self).appts.contains_key(uuid) && old(self).users.contains_key(appointment.user_id)
+                    && final(self).appts == old(self).appts.insert(uuid, row_of(*appointment)),
+                Err(_) => final(self).appts == old(self).appts && (old(self).appts.contains_key(uuid) || !old(self).users.contains_key(appointment.user_id)),
+            },
+    { unimplemented!() }
+    // UPDATE appointments SET encrypted_blob, to_self_delay, user_signature, start_block WHERE UUID
+    #[verifier::external_body]
+    pub fn update_appointment(&mut self, uuid: UUID, appointment: &ExtendedAppointment) -> (r: Result<(), DbError>)
+        ensures
+            final(self).users == old(self).users, final(self).trackers == old(self).trackers,
+            match r {
+                Ok(_) => old(self).appts.contains_key(uuid)
+                    && final(self).appts == old(self).appts.insert(uuid, ApptRow { blob: appointment.inner.encrypted_blob@, to_self_delay: appointment.inner.to_self_delay,
+                            user_signature: appointment.user_signature@, start_block: appointment.start_block, ..old(self).appts[uuid] }),
+                Err(_) => !old(self).appts.contains_key(uuid) && final(self).appts == old(self).appts,
+            },
+    { unimplemented!() }
+    // SELECT ... FROM appointments WHERE UUID
+    #[verifier::external_body]
+    pub fn load_appointment(&self, uuid: UUID) -> (r: Option<ExtendedAppointment>)
+        ensures match r { Some(a) => self.appts.contains_key(uuid) && row_of(a) == self.appts[uuid], None => !self.appts.contains_key(uuid) },
+    { unimplemented!() }
+    #[verifier::external_body]
+    pub fn appointment_exists(&self, uuid: UUID) -> (r: bool)
+        ensures r == self.appts.contains_key(uuid),
+    { unimplemented!() }
+    #[verifier::external_body]
+    pub fn get_appointments_count(&self) -> (r: usize)
+        ensures r == self.appts.len(),
+    { unimplemented!() }
+    // SELECT UUID FROM appointments WHERE locator
+    #[verifier::external_body]
+    pub fn load_uuids(&self, locator: Locator) -> (r: Vec<UUID>)
+        ensures r@.no_duplicates(), forall|u: UUID| r@.contains(u) <==> #[trigger] self.appts.contains_key(u) && self.appts[u].locator == locator,
+    { unimplemented!() }
+    // SELECT locator FROM appointments WHERE locator IN (...)   [one row per appointment: may repeat a locator]
+    #[verifier::external_body]
+    pub fn batch_check_locators_exist(&self, locators: Vec<&Locator>) -> (r: Vec<Locator>)
+        ensures forall|l: Locator| r@.contains(l) <==> (exists|i: int| 0 <= i < locators@.len() && *#[trigger] locators@[i] == l) && (exists|u: UUID| #[trigger] self.appts.contains_key(u) && self.appts[u].locator == l),
+    { unimplemented!() }
 }
